@@ -307,6 +307,8 @@ class red_noise(_base_colored_noise):
         if npts > _INDEX_LIMIT:
             raise ValueError(f"Argument 'npts' must be <= {_INDEX_LIMIT}.")
 
+        if npts == 0:
+            return np.empty(0, dtype=np.float64)
         w_noise = self._whitenoise.get_series(npts)
         samples, self._zi = signal.lfilter(self._a, self._b, w_noise, zi=self._zi)
         return samples * self._scaling
